@@ -1,12 +1,13 @@
 (* C03 — text fidelity in XHTML.  Escaping step: html.EscapeString as probed from the toolchain over every
    code point (Gen/Tables.html_table) = Repl.enc html_table (stream S-esc); typography only inserts (C20). *)
-Require Import Repl Tables EscapeProofs Typo TypoProofs.
-From Coq Require Import List NArith.
+Require Import Repl Tables EscapeProofs Typo TypoProofs MomText.
+Require Import St Text.
+From Coq Require Import List NArith String.
 Import ListNotations.
 Open Scope N_scope.
 
 (* unescaping the escaped text gives the text back: no character dropped, duplicated, reordered *)
-Theorem C03_escape_decodable : forall s, dec html_table (length (enc html_table s)) (enc html_table s) = Some s.
+Theorem C03_escape_decodable : forall s, Repl.dec html_table (List.length (enc html_table s)) (enc html_table s) = Some s.
 Proof. exact html_roundtrip. Qed.
 (* the markup-significant characters (less-than, greater-than, ampersand, both quotes) never pass through:
    they are never read as markup *)
@@ -17,5 +18,14 @@ Theorem C03_typography_only_inserts_fr : forall l, Embed (atoms l) (atoms (fst (
 Proof. exact C20_french. Qed.
 Theorem C03_typography_only_inserts_en : forall l, Embed (atoms l) (atoms (english l)).
 Proof. exact C20_english. Qed.
+(* On the text renderer of the model (Model/Text.v = renderText / inlinesToText of frundis/utils.go): in an XHTML
+   compilation, outside automatic typography, unescaping what is rendered for a list of inlines (text, escapes,
+   interpolated variables) gives back exactly their text -- for every list of inlines and every state.  (With
+   typography the rendered text is that of the typographed inlines, which only inserts: the two theorems above.) *)
+Theorem C03_model_rendered_text_decodes : forall l s, Exp.fmt s = Exp.FX ->
+  MBase.str_eqb (lang s) (R "fr") = false -> MBase.str_eqb (lang s) (R "en") = false ->
+  let r := fst (render_text l s) in Repl.dec html_table (List.length r) r = Some (fst (inlines_text l s)).
+Proof. exact xhtml_rendered_text_decodes. Qed.
 Print Assumptions C03_escape_decodable.
+Print Assumptions C03_model_rendered_text_decodes.
 Print Assumptions C03_markup_characters_escaped.
